@@ -56,6 +56,12 @@ func (g grpcClientProtocol) extractProtocolRequestHeaders(_ *operation, headers 
 
 func (g grpcClientProtocol) addProtocolResponseHeaders(meta responseMeta, headers http.Header) int {
 	statusCode := grpcAddResponseMeta("application/grpc+", meta, headers)
+	if meta.end != nil {
+		// Trailers-only response: the status is already in the headers, so
+		// nothing is announced as a trailer. (Announcing Grpc-Status here
+		// makes the HTTP server repeat it, without the details, in trailers.)
+		return statusCode
+	}
 	if len(meta.pendingTrailers) > 0 {
 		if meta.pendingTrailerKeys == nil {
 			meta.pendingTrailerKeys = make(headerKeys, len(meta.pendingTrailers))
